@@ -13,8 +13,7 @@ from common import *  # noqa
 PID = 'C04'
 TOL = 1e-9
 MAX_TIMEOUT_FRAC = 0.01   # per measure variant
-ABORT_AFTER_TIMEOUTS = 3    # per work item
-MAX_RAISE_FRAC = 0.25     # edge_nei_overlap_* legitimately raise ZeroDivisionError on ~5-15 % of small graphs
+ABORT_AFTER_TIMEOUTS = 2    # per work item: calls that exceeded t and, re-tried, 10 t
 
 # --------------------------------------------------------------------------- graph classes
 # class of a graph: b/w/s (binary, positive integer weights, signed integer weights) x u/d
@@ -40,6 +39,18 @@ def has_edge(A):
     return bool(np.any(A != 0))
 
 
+def isolated_edge(A):
+    """some connection i->j whose endpoints have no other neighbour (in or out): edge_nei_overlap_* then divides the Python
+    ints 0 / 0 (`len(intersect1d) / len(union1d)`) -> ZeroDivisionError.  Renumbering-invariant."""
+    B = (A != 0) | (A != 0).T
+    n = len(A)
+    for i, j in zip(*np.nonzero(A)):
+        others = [k for k in range(n) if k != i and k != j and (B[i, k] or B[j, k])]
+        if not others:
+            return True
+    return False
+
+
 def top_simple(A):
     """is the largest eigenvalue of the symmetric matrix A simple?"""
     if len(A) < 2:
@@ -55,9 +66,12 @@ class M:
           ms multiset of rows | part partition given as label vector |
           x / xp excluded matrix / matrix of node indices (tie-dependent by definition, counted only)"""
 
-    def __init__(self, name, dom, fn, outs, variant='', need=None, cond=None, t=3.0, uses_ci=False, cond_fn=None):
+    def __init__(self, name, dom, fn, outs, variant='', need=None, cond=None, t=2.0, uses_ci=False, cond_fn=None, legit_raise=None):
         self.name, self.dom, self.fn, self.outs, self.variant, self.need, self.t = name, dom, fn, outs, variant, need, t
         self.cond_fn = cond_fn      # graph -> extra keys of a violation's cond (matched against known findings)
+        # (exception kind, predicate on the graph): the only in-domain exception that follows from the routine's own code;
+        # any other exception on an in-domain input is a violation, whether or not both numberings raise it
+        self.legit_raise = legit_raise
         self.uses_ci = uses_ci      # the measure reads the per-node input ci (else results are cached per labelled graph)
         self.cond = cond or {}
         self.key = name + (':' + variant if variant else '')
@@ -81,8 +95,11 @@ def build_measures():
     add('strengths_und_sign', 'su', lambda b, A, ci: b.strengths_und_sign(A),
         (('Spos', V, EX), ('Sneg', V, EX), ('vpos', S, EX), ('vneg', S, EX)))
     # ---- physical_connectivity.py
-    add('density_und', 'wu', lambda b, A, ci: b.density_und(A), (('kden', S, EX), ('n', S, EX), ('k', S, EX)))
-    add('density_dir', 'wd', lambda b, A, ci: b.density_dir(A), (('kden', S, EX), ('n', S, EX), ('k', S, EX)))
+    # `k / (n*n - n)` on Python numbers: the 1-node graph divides by zero
+    add('density_und', 'wu', lambda b, A, ci: b.density_und(A), (('kden', S, EX), ('n', S, EX), ('k', S, EX)),
+        legit_raise=('ZeroDivisionError', lambda A: len(A) <= 1))
+    add('density_dir', 'wd', lambda b, A, ci: b.density_dir(A), (('kden', S, EX), ('n', S, EX), ('k', S, EX)),
+        legit_raise=('ZeroDivisionError', lambda A: len(A) <= 1))
     # ---- clustering.py
     add('clustering_coef_bu', 'bu', lambda b, A, ci: (b.clustering_coef_bu(A),), (('C', V, EX),))
     add('clustering_coef_bd', 'bd', lambda b, A, ci: (b.clustering_coef_bd(A),), (('C', V, EX),))
@@ -159,8 +176,10 @@ def build_measures():
     for ns in (1, 2, 3, 4):
         add('gtom', 'bu', lambda b, A, ci, ns=ns: (b.gtom(A, ns),), (('gt', MM, EX),), variant='nr_steps=%d' % ns,
             cond={'nr_steps': ns, 'nr_steps_ge_3': ns >= 3})
-    add('edge_nei_overlap_bu', 'bu', lambda b, A, ci: _eno(b.edge_nei_overlap_bu(A)), (('EC', MM, EX), ('ec,degij', MS, EX)))
-    add('edge_nei_overlap_bd', 'bd', lambda b, A, ci: _eno(b.edge_nei_overlap_bd(A)), (('EC', MM, EX), ('ec,degij', MS, EX)))
+    add('edge_nei_overlap_bu', 'bu', lambda b, A, ci: _eno(b.edge_nei_overlap_bu(A)), (('EC', MM, EX), ('ec,degij', MS, EX)),
+        legit_raise=('ZeroDivisionError', isolated_edge))
+    add('edge_nei_overlap_bd', 'bd', lambda b, A, ci: _eno(b.edge_nei_overlap_bd(A)), (('EC', MM, EX), ('ec,degij', MS, EX)),
+        legit_raise=('ZeroDivisionError', isolated_edge))
     return L
 
 
@@ -314,7 +333,7 @@ def pick_rep(m, A):
 
 def evaluate(m, A, ci, rep=None):
     """('ok', outputs) | ('exc', kind) | ('timeout', None)"""
-    st, v = call(m.fn, bct_mod(), rep_apply(rep, A), ci.copy(), t=m.t)
+    st, v = call(m.fn, bct_mod(), rep_apply(rep, A), ci.copy(), t=m.t, retry=10)
     if st == 'ok':
         if not isinstance(v, tuple):
             v = (v,)
@@ -340,9 +359,15 @@ def check_pair(m, A, ci, p, base, permd, res, rep=None):
         res['timeouts'] += 1
         return
     if base[0] == 'exc' or permd[0] == 'exc':
-        if base[0] == permd[0] and base[1] == permd[1]:
+        legit = (m.legit_raise is not None and base[0] == 'exc' and base[1] == m.legit_raise[0] and m.legit_raise[1](A))
+        if base[0] == permd[0] and base[1] == permd[1] and legit:
             res['both_raise'] += 1
             res['raise_kinds'][base[1]] = res['raise_kinds'].get(base[1], 0) + 1
+        elif base[0] == permd[0] and base[1] == permd[1]:
+            # both numberings raise, but nothing in the routine's code makes this input an error case
+            res['viol'].append({'measure': m.key, 'name': m.name, 'pred': 'raises-on-in-domain-input', 'cond': cond_of(m, A, rep),
+                                'detail': {'measure': m.key, 'A': A.tolist(), 'p': [int(t) for t in p], 'ci': ci.tolist(), 'rep': rep,
+                                           'exception': base[1]}})
         else:
             res['viol'].append({'measure': m.key, 'name': m.name, 'pred': 'raises-on-one-numbering-only', 'cond': cond_of(m, A, rep),
                                 'detail': {'measure': m.key, 'A': A.tolist(), 'p': [int(t) for t in p], 'ci': ci.tolist(), 'rep': rep,
@@ -393,11 +418,15 @@ def run_item(item):
     def ev(A, ci, rep=None):
         k = (A.tobytes(), ci.tobytes() if m.uses_ci else b'', rep)
         if k not in cache:
-            cache[k] = evaluate(m, A, ci, rep)
+            r = evaluate(m, A, ci, rep)
             res['calls'] += 1
+            if r[0] == 'timeout':       # never cached: a wall-clock hit says nothing about the next call
+                return r
+            cache[k] = r
         return cache[k]
 
     seen = set()
+    mkey = m.key.encode() + b'|'
     if fam.startswith('exh'):
         n, directed, subset, weights = payload
         graphs = list(all_graphs(n, directed, weights)) if subset is None else [np.array(a, float) for a in subset]
@@ -422,11 +451,14 @@ def run_item(item):
         if rep == 'none':
             rep = None
         base = ev(A, ci, rep)
-        if rep is not None and base[0] != 'ok':
+        if rep is not None and base[0] == 'exc':
             # "where accepted": the routine does not take this dtype/layout -> counted, and the case runs in the default one
             res['rep_rejected'][rep] = res['rep_rejected'].get(rep, 0) + 1
             rep = None
             base = ev(A, ci, rep)
+        if base[0] == 'timeout':        # one call timed out (after the retry): one count, the graph is skipped
+            res['timeouts'] += 1
+            continue
         if rep is not None:
             res['rep_pairs'][rep] = res['rep_pairs'].get(rep, 0) + len(plist)
         for p in plist:
@@ -434,15 +466,16 @@ def run_item(item):
                 break
             Ap = A[np.ix_(p, p)]
             permd = ev(Ap, ci[p], rep)
-            k = (A.tobytes(), tuple(int(t) for t in p))
             nv = len(res['viol'])
             check_pair(m, A, ci, p, base, permd, res, rep)
-            if k not in seen and has_edge(A) and not (p == np.arange(len(p))).all():
-                seen.add(k)
-                res['nontrivial'] += 1
+            if not (Ap == A).all():        # non-trivial: the renumbering changes the matrix (p is not an automorphism)
+                seen.add(int.from_bytes(hashlib.blake2b(mkey + bytes([len(A)]) + A.tobytes() + np.asarray(p, np.uint8).tobytes(),
+                                                        digest_size=8).digest(), 'little'))
             if res['sample'] is None and base[0] == 'ok' and has_edge(A) and not (Ap == A).all() and len(res['viol']) == nv:
                 res['sample'] = {'measure': m.key, 'A': A.tolist(), 'p': [int(t) for t in p],
                                  'f(A)': [np.asarray(o, float).tolist() for o in base[1]][:2]}
+    res['nontrivial'] = len(seen)
+    res['keys'] = np.fromiter(seen, dtype=np.uint64, count=len(seen))
     if len(res['viol']) > 40:
         res['nviol_total'] = len(res['viol'])
         res['viol'].sort(key=lambda v: len(json.dumps(v['detail'], default=str)))
@@ -603,13 +636,18 @@ def gen_families(rs, tier):
     fams.append(('exh-u4', (4, False, None, (1,))))
     # every graph with weights in {1,2} / {1,-1} (the binary ones are skipped: covered above)
     fams.append(('exh-wu3', (3, False, None, (1, 2))))
-    fams.append(('exh-wd3', (3, True, None, (1, 2))))
+    if quick:
+        allw = [A for A in all_graphs(3, True, (1, 2))]
+        pick = set(rs.choice(len(allw), size=150, replace=False).tolist())
+        fams.append(('exh-wd3-slice', (3, True, [A.tolist() for i, A in enumerate(allw) if i in pick], (1, 2))))
+    else:
+        fams.append(('exh-wd3', (3, True, None, (1, 2))))
     fams.append(('exh-su3', (3, False, None, (1, -1))))
     if not quick:
         fams.append(('exh-wu4', (4, False, None, (1, 2))))
         fams.append(('exh-su4', (4, False, None, (1, -1))))
     if quick:
-        idx = set(rs.choice(4096, size=80, replace=False).tolist())
+        idx = set(rs.choice(4096, size=40, replace=False).tolist())
         sub = [A.tolist() for i, A in enumerate(all_graphs(4, True)) if i in idx]
         fams.append(('exh-d4-slice', (4, True, sub, (1,))))
     else:
@@ -646,7 +684,7 @@ def gen_families(rs, tier):
     fams.append(('neartie-inv', lsti))
     # sampled 5-node graphs x all 5! permutations
     p5 = [list(p) for p in itertools.permutations(range(5))]
-    n5 = 6 if quick else 60
+    n5 = 4 if quick else 60
     for cls in ('bu', 'bd', 'wu', 'wd', 'su'):
         lst = []
         for _ in range(n5):
@@ -712,6 +750,17 @@ def build_items(fams, only=None):
     return items
 
 
+class _Counted(set):
+    """Check.finish takes len() of the set of non-trivial keys; the keys are kept as one numpy array (16 M in the thorough tier)"""
+
+    def __init__(self, n):
+        super().__init__()
+        self._n = n
+
+    def __len__(self):
+        return self._n
+
+
 def pmap1(func, items, procs=None):
     """like common.pmap but one item per task (items differ in cost by three orders of magnitude)"""
     import multiprocessing as mp
@@ -733,20 +782,19 @@ def main():
     ck.cov['rule'] = ('cases = (measure, graph A, permutation p): the real measure is called on A and on A[ix_(p,p)] (node data such as ci/falff '
                       'renumbered with it) and the outputs compared as vectors (f(A)[p]), matrices (f(A)[ix_(p,p)]), scalars/distributions (equal), '
                       'multisets or partitions; graphs: every labelled graph n<=4 x all n! permutations (a random slice of the 4-node digraphs in the '
-                      'quick tier), every graph with weights {1,2} (n=3; thorough: undirected n=4) or {1,-1} (undirected n=3; thorough: n=4), sampled 5-node binary/weighted/signed graphs x all 120, random n=6..10 x random permutations, structured graphs '
+                      'quick tier), every graph with weights {1,2} (undirected n=3, a slice of 150 of the 3-node digraphs in quick, all in thorough; thorough: undirected n=4) or {1,-1} (undirected n=3; thorough: n=4), sampled 5-node binary/weighted/signed graphs x all 120, random n=6..10 x random permutations, structured graphs '
                       'with many automorphisms / degenerate spectra / ties in lengths, dyadic 4/5-node length matrices with near ties (routes differing by 2^-40..2^-30 behind exactly tied predecessors) x all n! for the path-based weighted measures; about a quarter of the list-family cases are presented in another representation (Fortran order, strided view, int64, bool, float32 where the routine accepts it); non-trivial = distinct (measure variant, A, p) with A non-empty '
-                      'and p not the identity, counted in the workers: the families are disjoint by construction (exhaustive ones by n / '
-                      'directedness, list families never repeat a labelled graph and skip 5-node binary undirected graphs when exh-u5 runs) and '
-                      'repeated permutations of one graph are counted once')
+                      'whose matrix is changed by p (p is not an automorphism of A); measured as the number of distinct 64-bit hashes of (variant, n, '
+                      'A, p) collected from all workers (the families are also disjoint by construction)')
     ck.assumptions += ['each measure is exercised on its documented domain (binary vs weighted, undirected vs directed, connected for eigenvector '
                        'centrality, empty diagonal); floats compared exactly where the output is an integer or one division of integers, within 1e-9 otherwise',
                        'outputs the library defines only up to a choice among ties (hops and Pmat of distance_wei_floyd, B of distance_wei) are excluded',
                        'calls that hit the watchdog are counted as timeouts, not violations']
-    ok = True
-    if os.environ.get('C04_NO_LEAN') != '1':
-        ok = ck.lean_gate(['BctVerif.Props.C04'], extra_modules=['BctVerif.Model.Measures'])
-        if ck.tier == 'thorough' and ok:
-            ck.leanchecker(['BctVerif.Props.C04', 'BctVerif.Model.Measures'])
+    t_ = time.time()
+    ok = ck.lean_gate(['BctVerif.Props.C04'], extra_modules=['BctVerif.Model.Measures'])
+    ck.dist['lean_gate_s'] = round(time.time() - t_, 1)
+    if ck.tier == 'thorough' and ok:
+        ck.leanchecker(['BctVerif.Props.C04', 'BctVerif.Model.Measures'])
     if ck.replay:
         rp = json.load(open(ck.replay))
         c = rp['case']
@@ -763,8 +811,11 @@ def main():
     weight = lambda it: -(len(list(it[2][2])) if it[1].startswith('exh') and it[2][2] is not None else
                           ((1 + len(it[2][3])) ** (it[2][0] * (it[2][0] - 1) // (1 if it[2][1] else 2)) if it[1].startswith('exh') else len(it[2])))
     items.sort(key=weight)
+    t_ = time.time()
     results = pmap1(run_item, items)
+    ck.dist['search_s'] = round(time.time() - t_, 1)
     table = {}
+    pool_samples = {}
     for r in results:
         t = table.setdefault(r['measure'], {'pairs': 0, 'returned_normally': 0, 'calls': 0, 'timeouts': 0, 'both_raise': 0,
                                             'excluded_outputs_differ': 0, 'nontrivial': 0})
@@ -782,12 +833,15 @@ def main():
         ck.count('family:' + r['family'], r['pairs'])
         ck.count('timeouts', r['timeouts'])
         ck.cov['evaluations'] += r['pairs']
-        if r['sample'] is not None and len(ck.cov['samples']) < 6 and ck.rs.rand() < .2:
-            ck.cov['samples'].append(r['sample'])
+        if r['sample'] is not None:
+            pool_samples.setdefault(r['family'].split('-')[0], []).append(r['sample'])
         for v in r['viol']:
             ck.violation(v['name'], v['pred'], v['detail'], v['cond'])
-    if not ck.cov['samples']:
-        ck.cov['samples'] = [r['sample'] for r in results if r['sample'] is not None][:4]
+    # one sample per family group, drawn at random (different measures / graphs), at most 8
+    for fam_ in sorted(pool_samples):
+        lst_ = pool_samples[fam_]
+        if len(ck.cov['samples']) < 8:
+            ck.cov['samples'].append(lst_[int(ck.rs.randint(len(lst_)))])
     # a measure that (almost) never returns normally cannot be said to satisfy the property: bounded, not just counted
     if not ck.replay:
         for k in sorted(table):
@@ -796,9 +850,7 @@ def main():
             if t['pairs'] and t['returned_normally'] == 0:
                 why = 'never returned normally'
             elif t.get('items_aborted_on_timeouts') or t['timeouts'] > max(2, MAX_TIMEOUT_FRAC * t['pairs']):
-                why = 'timeouts on more than %g of the pairs' % MAX_TIMEOUT_FRAC
-            elif t['both_raise'] > MAX_RAISE_FRAC * t['pairs']:
-                why = 'raises on more than %g of the pairs' % MAX_RAISE_FRAC
+                why = 'calls exceed the watchdog even when re-tried with 10x the budget (more than %g of the pairs, or a work item gave up)' % MAX_TIMEOUT_FRAC
             if why:
                 ck.breaks.append({'kind': 'measure-degenerate', 'measure': k, 'why': why, 'counts': t})
         missing = [m.key for m in MEASURES if m.key not in table and not only]
@@ -806,12 +858,15 @@ def main():
             ck.breaks.append({'kind': 'measure-not-exercised', 'measures': missing})
     ck.cov['per_measure'] = {k: table[k] for k in sorted(table)}
     ck.cov['measures'] = len(table)
-    nontriv = sum(t['nontrivial'] for t in table.values())
-    ck._nontrivial = set(range(nontriv))       # counted in the workers: distinct (measure, A, p) by construction (see rule)
+    # distinct non-trivial cases: 64-bit hashes of (measure variant, graph, permutation) from all workers, de-duplicated here
+    allkeys = np.unique(np.concatenate([r['keys'] for r in results] + [np.zeros(0, np.uint64)]))
+    ck._nontrivial = _Counted(len(allkeys))
     ck.cov['exhaustive'] = False
     # correspondence with the Lean model
-    if ok and os.environ.get('C04_NO_LEAN') != '1' and not ck.replay:
+    if ok and not ck.replay:
+        t_ = time.time()
         correspondence(ck)
+        ck.dist['correspondence_s'] = round(time.time() - t_, 1)
     ck.finish()
 
 
